@@ -102,15 +102,18 @@ with run_node (fuel : nat) (sc : scopes) (n : tnode) {struct fuel} : tres :=
       match ev sc e with
       | SVal v => match value_string v with Some s => TOk s SigNormal sc | None => TUnprintable end
       | SErr => TFail
+      | SUnspec => TUnprintable
       end
     | NAssign x e =>
       match ev sc e with
       | SVal v => match assign sc x v with Some sc' => TOk [] SigNormal sc' | None => TFail end
       | SErr => TFail
+      | SUnspec => TUnprintable
       end
     | NIf c thn elifs els =>
       match ev sc c with
       | SErr => TFail
+      | SUnspec => TUnprintable
       | SVal v =>
         if truthy_spec v then run_block f sc thn else
         (fix branches (bs : list (sexpr * list tnode)) : tres :=
@@ -118,6 +121,7 @@ with run_node (fuel : nat) (sc : scopes) (n : tnode) {struct fuel} : tres :=
            | (c', b) :: bs' =>
              match ev sc c' with
              | SErr => TFail
+             | SUnspec => TUnprintable
              | SVal v' => if truthy_spec v' then run_block f sc b else branches bs'
              end
            | [] => match els with Some b => run_block f sc b | None => TOk [] SigNormal sc end
@@ -136,20 +140,24 @@ with run_node (fuel : nat) (sc : scopes) (n : tnode) {struct fuel} : tres :=
         end
       | SVal _ => TFail                              (* iterating a non-array is an error *)
       | SErr => TFail
+      | SUnspec => TUnprintable
       end
     | NFor init cond post body els =>
       let sc0 := [] :: sc in
       match (match init with
              | Some (x, e) => match ev sc0 e with
                               | SVal v => match assign sc0 x v with Some s => Some (Some s) | None => Some None end
-                              | SErr => Some None end
+                              | SErr => Some None
+                              | SUnspec => None end
              | None => Some (Some sc0)
              end) with
       | Some (Some sc1) =>
-        match (match cond with Some c => match ev sc1 c with SVal v => Some (truthy_spec v) | SErr => None end
-                              | None => Some true end) with
-        | None => TFail
-        | Some enter =>
+        match (match cond with Some c => match ev sc1 c with SVal v => Some (Some (truthy_spec v))
+                                                        | SErr => Some None | SUnspec => None end
+                              | None => Some (Some true) end) with
+        | None => TUnprintable
+        | Some None => TFail
+        | Some (Some enter) =>
           match enter, els with
           | false, Some b =>
             match run_nodes f sc1 b with TOk o s sc2 => TOk o s (tl sc2) | r => r end
@@ -160,7 +168,8 @@ with run_node (fuel : nat) (sc : scopes) (n : tnode) {struct fuel} : tres :=
             end
           end
         end
-      | _ => TFail
+      | Some None => TFail
+      | None => TUnprintable
       end
     | NBreak => TOk [] SigBreak sc
     | NContinue => TOk [] SigContinue sc
@@ -168,11 +177,13 @@ with run_node (fuel : nat) (sc : scopes) (n : tnode) {struct fuel} : tres :=
       match ev sc e with
       | SVal v => TOk [] (if truthy_spec v then SigBreak else SigNormal) sc
       | SErr => TFail
+      | SUnspec => TUnprintable
       end
     | NContinueIf e =>
       match ev sc e with
       | SVal v => TOk [] (if truthy_spec v then SigContinue else SigNormal) sc
       | SErr => TFail
+      | SUnspec => TUnprintable
       end
     end
   end
@@ -207,11 +218,13 @@ with for_passes (fuel : nat) (cond : option sexpr) (post : option fpost) (body :
   match fuel with
   | O => TNoFuel
   | S f =>
-    match (match cond with Some c => match ev sc c with SVal v => Some (truthy_spec v) | SErr => None end
-                          | None => Some true end) with
-    | None => TFail
-    | Some false => TOk [] SigNormal sc
-    | Some true =>
+    match (match cond with Some c => match ev sc c with SVal v => Some (Some (truthy_spec v))
+                                                  | SErr => Some None | SUnspec => None end
+                          | None => Some (Some true) end) with
+    | None => TUnprintable
+    | Some None => TFail
+    | Some (Some false) => TOk [] SigNormal sc
+    | Some (Some true) =>
       match run_nodes f sc body with
       | TOk o SigBreak sc1 => TOk o SigNormal sc1
       | TOk o _ sc1 =>
@@ -219,11 +232,11 @@ with for_passes (fuel : nat) (cond : option sexpr) (post : option fpost) (body :
           match post with
           | None => Some sc1
           | Some (PostInc x) =>
-            match ev sc1 (XInc (XVar x)) with SVal v => assign sc1 x v | SErr => None end
+            match ev sc1 (XInc (XVar x)) with SVal v => assign sc1 x v | _ => None end
           | Some (PostDec x) =>
-            match ev sc1 (XDec (XVar x)) with SVal v => assign sc1 x v | SErr => None end
+            match ev sc1 (XDec (XVar x)) with SVal v => assign sc1 x v | _ => None end
           | Some (PostAssign x e) =>
-            match ev sc1 e with SVal v => assign sc1 x v | SErr => None end
+            match ev sc1 e with SVal v => assign sc1 x v | _ => None end
           end in
         match after with
         | None => TFail
